@@ -90,6 +90,8 @@ def build(variant):
                 mine.append((age, full))
         mine.sort()
         for age, full in mine[int(os.environ.get("VERIF_KEEP_BUILDS", "6")):]:
+            if age < 3 * 3600:
+                continue  # used recently: a check started by someone else may still be executing it
             shutil.rmtree(full, ignore_errors=True)
     tmp = out + ".tmp%d" % os.getpid()
     shutil.rmtree(tmp, ignore_errors=True)
